@@ -1,6 +1,14 @@
 #!/bin/sh
-# usage: seedconfirm.sh C01 C02 ...   — confirm the deliverables of seeding agents in their scratch worktrees (sequentially)
+# usage: seedconfirm.sh [--after PID PREV] C01 C02 ...   — confirm the deliverables of seeding agents in their scratch worktrees
+# (sequentially). The build directory is handed from one worktree to the next (only the workspace crates rebuild), so a stream
+# needs one target dir. --after: first wait for process PID (a confirmation already running in worktree PREV).
+prev=""
+if [ "$1" = "--after" ]; then while kill -0 "$2" 2>/dev/null; do sleep 5; done; prev=$3; shift 3; fi
 for id in "$@"; do
+  if [ -n "$prev" ] && [ -d /tmp/seed/$prev/target ] && [ ! -d /tmp/seed/$id/target ]; then mv /tmp/seed/$prev/target /tmp/seed/$id/target; fi
+  # a handed-over build directory holds artifacts NEWER than this worktree's sources: without this cargo would reuse them
+  # (built from the previous worktree's patched sources) — make every source of this worktree newer than any artifact
+  find /tmp/seed/$id -path /tmp/seed/$id/target -prune -o \( -name '*.rs' -o -name 'Cargo.toml' -o -name '*.stderr' \) -print0 | xargs -0 touch
   for n in "" 2 3; do
     p=/tmp/seed/$id/out/patch$n.diff; d=/tmp/seed/$id/out/demo$n.diff
     if [ -f "$p" ] && [ -f "$d" ]; then
@@ -8,4 +16,5 @@ for id in "$@"; do
     fi
   done > /tmp/seed/$id.confirm.log 2>&1
   echo "$id: $(cat /tmp/seed/$id.confirm.log | tr '\n' ' ' | cut -c1-400)"
+  prev=$id
 done
